@@ -466,3 +466,48 @@ package shell_operator
 //@     invariant forall(j, 0, iter(), 0 <= routed(tailTasks, tqs.Queues, j) && routed(tailTasks, tqs.Queues, j) + ite(tqs.Queues[tailTasks[j].GetQueueName()] != nil, 1, 0) <= routed(tailTasks, tqs.Queues, iter()))
 //@     invariant forall(k, n0, queue.nAddLast, queue.addLastQueue[k] != nil && queue.addLastQueue[k] == tqs.Queues[queue.addLastTask[k].GetQueueName()])
 //@     invariant forall(j, 0, iter(), tqs.Queues[tailTasks[j].GetQueueName()] != nil ==> queue.addLastTask[n0 + routed(tailTasks, tqs.Queues, j)] == tailTasks[j])
+
+// ---- C06: the main queue is populated with the onStartup runs first, in (order, name) order, and
+// only then with the tasks that enable bindings -------------------------------------------------
+//@ pred IsStartupRun(t task.Task, hookName string) := dyntype(t, *task.BaseTask) && t.(*task.BaseTask) != nil && t.(*task.BaseTask).Type == task_metadata.HookRun
+//@     && dyntype(t.(*task.BaseTask).Metadata, task_metadata.HookMetadata) && t.(*task.BaseTask).Metadata.(task_metadata.HookMetadata).HookName == hookName
+//@     && t.(*task.BaseTask).Metadata.(task_metadata.HookMetadata).BindingType == "onStartup" && len(t.(*task.BaseTask).Metadata.(task_metadata.HookMetadata).BindingContext) == 1
+//@ pred IsEnableTask(t task.Task) := dyntype(t, *task.BaseTask) && t.(*task.BaseTask) != nil
+//@     && (t.(*task.BaseTask).Type == task_metadata.EnableKubernetesBindings || t.(*task.BaseTask).Type == task_metadata.EnableScheduleBindings)
+
+//@ package github.com/flant/shell-operator/pkg/hook
+//@ trusted func (*Manager).GetHookNames
+//@   modifies nothing
+//@ package github.com/flant/shell-operator/pkg/shell-operator
+
+//@ func (*ShellOperator).bootstrapMainQueue
+//@   prop C06
+//@   requires op.HookManager != nil && tqs != nil && tqs.Queues != nil
+//@   requires forall(a, 0, len(op.HookManager.hooksInOrder["onStartup"]), op.HookManager.hooksInOrder["onStartup"][a] != nil && op.HookManager.hooksInOrder["onStartup"][a].Config != nil)
+//@   requires forall(a, 0, len(op.HookManager.hooksInOrder["onStartup"]), forall(b, 0, len(op.HookManager.hooksInOrder["onStartup"]), a < b ==> op.HookManager.hooksInOrder["onStartup"][a].Name < op.HookManager.hooksInOrder["onStartup"][b].Name))
+//@   modifies tqs.MainName, mapof(tqs.Queues), elems(op.HookManager.hooksInOrder["onStartup"]), queue.nAddLast, queue.addLastTask, queue.addLastQueue, all(queue.TaskQueue.items), all(queue.TaskQueue.measureActionFn), allelems(task.Task), queue.nMut
+//@   let n0 := old(queue.nAddLast)
+//@   ensures [main-queue-only]  forall(k, n0, queue.nAddLast, queue.addLastQueue[k] != nil && queue.addLastQueue[k] == tqs.Queues["main"])
+//@   ensures [startup-first]    has(op.HookManager.hooksInOrder, "onStartup") && queue.nAddLast > n0 ==> queue.nAddLast >= n0 + len(op.HookManager.hooksInOrder["onStartup"])
+//@   ensures [startup-tasks]    has(op.HookManager.hooksInOrder, "onStartup") && queue.nAddLast > n0 ==> forall(k, n0, n0 + len(op.HookManager.hooksInOrder["onStartup"]), dyntype(queue.addLastTask[k], *task.BaseTask) && queue.addLastTask[k].(*task.BaseTask) != nil
+//@        && queue.addLastTask[k].(*task.BaseTask).Type == task_metadata.HookRun && dyntype(queue.addLastTask[k].(*task.BaseTask).Metadata, task_metadata.HookMetadata))
+//@   ensures [startup-order]    has(op.HookManager.hooksInOrder, "onStartup") && queue.nAddLast > n0 ==> forall(k, n0, n0 + len(op.HookManager.hooksInOrder["onStartup"]),
+//@        queue.addLastTask[k].(*task.BaseTask).Metadata.(task_metadata.HookMetadata).HookName == op.HookManager.hooksInOrder["onStartup"][k - n0].Name && queue.addLastTask[k].(*task.BaseTask).Metadata.(task_metadata.HookMetadata).BindingType == "onStartup")
+// (that this list is ordered by (ORDER, name) is the post-condition [startup-order] of GetHooksInOrder)
+//@   ensures [then-only-enabling] has(op.HookManager.hooksInOrder, "onStartup") && queue.nAddLast > n0 ==> forall(k, n0 + len(op.HookManager.hooksInOrder["onStartup"]), queue.nAddLast, dyntype(queue.addLastTask[k], *task.BaseTask) && queue.addLastTask[k].(*task.BaseTask) != nil
+//@        && (queue.addLastTask[k].(*task.BaseTask).Type == task_metadata.EnableKubernetesBindings || queue.addLastTask[k].(*task.BaseTask).Type == task_metadata.EnableScheduleBindings))
+//@   loop 1
+//@     invariant 0 <= iter() && iter() <= len(onStartupHooks) && queue.nAddLast == n0 + iter() && mainQueue != nil && mainQueue == tqs.Queues["main"]
+//@     invariant [link] has(op.HookManager.hooksInOrder, "onStartup") ==> len(onStartupHooks) == len(op.HookManager.hooksInOrder["onStartup"]) && forall(a, 0, len(onStartupHooks), onStartupHooks[a] == op.HookManager.hooksInOrder["onStartup"][a].Name)
+//@     invariant [q] forall(k, n0, queue.nAddLast, queue.addLastQueue[k] == mainQueue)
+//@     invariant [ty] forall(k, n0, queue.nAddLast, dyntype(queue.addLastTask[k], *task.BaseTask) && queue.addLastTask[k].(*task.BaseTask) != nil && allocated(queue.addLastTask[k].(*task.BaseTask)) && queue.addLastTask[k].(*task.BaseTask).Type == task_metadata.HookRun)
+//@     invariant [md] forall(k, n0, queue.nAddLast, dyntype(queue.addLastTask[k].(*task.BaseTask).Metadata, task_metadata.HookMetadata))
+//@     invariant [nm] forall(k, n0, queue.nAddLast, queue.addLastTask[k].(*task.BaseTask).Metadata.(task_metadata.HookMetadata).HookName == onStartupHooks[k - n0] && queue.addLastTask[k].(*task.BaseTask).Metadata.(task_metadata.HookMetadata).BindingType == "onStartup")
+//@   loop 2
+//@     invariant 0 <= iter() && queue.nAddLast >= n0 + len(onStartupHooks) && mainQueue != nil && mainQueue == tqs.Queues["main"]
+//@     invariant [q] forall(k, n0, queue.nAddLast, queue.addLastQueue[k] == mainQueue)
+//@     invariant [ty] forall(k, n0, queue.nAddLast, dyntype(queue.addLastTask[k], *task.BaseTask) && queue.addLastTask[k].(*task.BaseTask) != nil && allocated(queue.addLastTask[k].(*task.BaseTask)))
+//@     invariant [link] has(op.HookManager.hooksInOrder, "onStartup") ==> len(onStartupHooks) == len(op.HookManager.hooksInOrder["onStartup"]) && forall(a, 0, len(onStartupHooks), onStartupHooks[a] == op.HookManager.hooksInOrder["onStartup"][a].Name)
+//@     invariant [st] forall(k, n0, n0 + len(onStartupHooks), queue.addLastTask[k].(*task.BaseTask).Type == task_metadata.HookRun && dyntype(queue.addLastTask[k].(*task.BaseTask).Metadata, task_metadata.HookMetadata)
+//@        && queue.addLastTask[k].(*task.BaseTask).Metadata.(task_metadata.HookMetadata).HookName == onStartupHooks[k - n0] && queue.addLastTask[k].(*task.BaseTask).Metadata.(task_metadata.HookMetadata).BindingType == "onStartup")
+//@     invariant [en] forall(k, n0 + len(onStartupHooks), queue.nAddLast, queue.addLastTask[k].(*task.BaseTask).Type == task_metadata.EnableKubernetesBindings || queue.addLastTask[k].(*task.BaseTask).Type == task_metadata.EnableScheduleBindings)
